@@ -219,13 +219,12 @@ def xml_safe(specs):
     return not any(re.search(u"[\x00-\x1f\x7f-\x9f\u2028\u2029]", t) for t in texts(specs))
 
 
-def string_safe(pairs, lf_ok=False):
+def string_safe(pairs):
     """Can the string form say these pairs? Values free of the query syntax characters, not blank at the
-    ends, not the value list. A line feed inside a value is no syntax character, but the string form loses
-    the pair (known finding string_form_line_feed): only the oracle-only stream `sets` (lf_ok) sends such a
-    value through the string form, everywhere else the dictionary form is used for it."""
+    ends, not the value list. A line feed inside a value is no syntax character: since the repair of
+    string_form_line_feed (a288f96) such a value goes through the string form in every stream."""
     return all(not re.search(r"[,():\"]", p["v"]) and p["v"] == p["v"].strip() and p["v"] and p["a"] != "value"
-               and (lf_ok or "\n" not in p["v"]) for p in pairs)
+               for p in pairs)
 
 
 def parse_output(text):
@@ -700,7 +699,7 @@ class C20(fw.Check):
         except Exception:
             return None
 
-    def query_of(self, case, docs, lf_ok=False):
+    def query_of(self, case, docs):
         """-> (mode, pairs, parameter dictionary as plain data, string form, string form usable)"""
         opts = case.get("opts")
         mode = case.get("mode") or case["stream"]
@@ -710,11 +709,10 @@ class C20(fw.Check):
             plain = dict((k, list(v)) for k, v in case["attrs"].items())
             plain["Search"] = list(case["search"])
             q_str = render_fuzzy(case["attrs"], case["search"], opts)
-            str_ok = all(not re.search(r"[,():\"]", v) and v == v.strip() and v and (lf_ok or "\n" not in v)
-                         for v in case["search"])
+            str_ok = all(not re.search(r"[,():\"]", v) and v == v.strip() and v for v in case["search"])
             return mode, pairs, plain, q_str, str_ok
         pairs = self.resolve_pairs(case, docs)
-        return "match", pairs, None, render_match(pairs, opts), string_safe(pairs, lf_ok)
+        return "match", pairs, None, render_match(pairs, opts), string_safe(pairs)
 
     def params_of(self, mode, pairs, plain, opts):
         """a new parameter dictionary (new outer and inner objects) for the query"""
@@ -730,7 +728,7 @@ class C20(fw.Check):
         graph = self.make_graph(docs, case["docs"], opts.get("via", "graph"),
                                 linked=any(op["op"] == "link" for op in case.get("post") or ()))
         obs = {"docs": snap}
-        mode, pairs, plain, q_str, str_ok = self.query_of(case, docs, lf_ok=(case["stream"] == "sets"))
+        mode, pairs, plain, q_str, str_ok = self.query_of(case, docs)
         params = self.params_of(mode, pairs, plain, opts)
         obs["pairs"] = pairs
         obs["mode"] = mode
@@ -820,17 +818,6 @@ class C20(fw.Check):
                 o["executed"] = self.executed_of(ff)
             except Exception as exc:
                 o["raised"] = fw.exc_name(exc)
-            # for the narrow classification of the known finding "a finder keeps its first graph": does a
-            # finder that is used again, with another graph, answer exactly what a new finder answers with
-            # new parameters on the graph of its first search?
-            o["stale_graph"] = False
-            if step["finder"] == "same" and gi != kept["first"] and "blocks" in o:
-                try:
-                    ref = FuzzyFinder().find(mode=mode, graph=graphs[kept["first"]],
-                                             q_params=self.params_of(mode, pairs, plain, opts))
-                    o["stale_graph"] = self.blocks_of(ref) == o["blocks"]
-                except Exception:
-                    pass
             o["expected"] = expected[gi]
             obs["steps"].append(o)
         return obs
@@ -845,7 +832,6 @@ class C20(fw.Check):
         graph = RDFWriter(docs, rdf_subclassing=False).convert_to_rdf()
         obs = {"steps": []}
         shared_parser = None
-        left = {}                  # kind -> pairs of the last string the shared parser read that named the kind
 
         def rows_of(prepared):
             rows = []
@@ -857,9 +843,7 @@ class C20(fw.Check):
             pairs = step["pairs"]
             opts = step.get("opts")
             entry = step["entry"] if string_safe(pairs) else "dict"
-            o = {"pairs": pairs, "entry": entry, "parser": step["parser"] if entry == "str" else None,
-                 "leftover": False}
-            leftover = []
+            o = {"pairs": pairs, "entry": entry, "parser": step["parser"] if entry == "str" else None}
             try:
                 if entry == "dict":
                     creator = QueryCreator(to_params(pairs, opts))
@@ -869,10 +853,6 @@ class C20(fw.Check):
                         if shared_parser is None:
                             shared_parser = QueryParser()
                         parser = shared_parser
-                        kinds = set(p["k"] for p in pairs)
-                        leftover = [p for k in sorted(left) if k not in kinds for p in left[k]]
-                        for k in kinds:
-                            left[k] = [p for p in pairs if p["k"] == k]
                     else:
                         parser = QueryParser()
                     creator = QueryCreator()
@@ -884,10 +864,6 @@ class C20(fw.Check):
                 o["raised"] = fw.exc_name(exc)
             o["expected"] = sorted(set(map(tuple, (row_key(r) for r in self.direct(docs, pairs)))))
             o["expected"] = [list(r) for r in o["expected"]]
-            if leftover and "rows" in o:
-                # narrow classification of the known finding "a QueryParser keeps the kinds of earlier strings"
-                both = sorted(set(map(tuple, (row_key(r) for r in self.direct(docs, pairs + leftover)))))
-                o["leftover"] = [list(r) for r in both] == o["rows"]
             obs["steps"].append(o)
         return obs
 
@@ -1000,8 +976,6 @@ class C20(fw.Check):
             return out
         if st == "reuse":
             for i, o in enumerate(obs["steps"]):
-                if o.get("stale_graph"):
-                    continue       # known finding finder_keeps_first_graph: the answer is about another graph
                 out += ["step %d: %s" % (i, d) for d in self.compare_find(answers[o["g"]], o)]
             return out
         out = self.compare_find(answers[0], obs)
@@ -1157,37 +1131,13 @@ class C20(fw.Check):
         return out
 
     def finding_key(self, case, obs, failure):
+        # Only the three open findings (queries that would need another shape) are classified. The repaired
+        # ones (finder_keeps_first_graph, empty_graph_refused, parser_keeps_earlier_kinds,
+        # string_form_line_feed) have no branch: a regression is a VIOLATION.
         st = case.get("stream")
-        if st == "reuse":
-            m = re.match(r"step (\d+): ", failure)
-            if m and obs["steps"][int(m.group(1))].get("stale_graph"):
-                return "finder_keeps_first_graph"
+        if st in ("reuse", "creator", "sets"):
             return None
-        if st == "creator":
-            m = re.match(r"query (\d+) \(str\): missing \d+ rows, \d+ rows", failure)
-            if m:
-                o = obs["steps"][int(m.group(1))]
-                if o.get("parser") == "same" and o.get("leftover") is True:
-                    return "parser_keeps_earlier_kinds"
-            return None
-        if st == "sets" and case.get("kind") == "empty" and not case.get("docs") \
-                and obs.get("raised") == "ValueError" and failure.startswith("find raised ValueError"):
-            return "empty_graph_refused"
         m = re.match(r"combination (.*): missing (\d+) rows, (\d+) rows that do not carry the values$", failure)
-        if st == "sets":
-            # a line feed in a value that went through the string form: the kind of object it is asked of
-            # (match) / the search terms from it on (fuzzy) are lost
-            lf = set(p["k"] for p in obs.get("pairs", []) if "\n" in p["v"])
-            if lf and failure == "string and dictionary form of the query give different answers":
-                return "string_form_line_feed"
-            if lf and obs.get("used") == "str" and obs.get("mode") == "fuzzy" and \
-                    failure == "fuzzy search differs from the match search on the attribute=term pairs":
-                return "string_form_line_feed"
-            if lf and m and m.group(3) == "0" and obs.get("used") == "str":
-                import json
-                if obs.get("mode") == "fuzzy" or any(k[0] in lf for k in json.loads(m.group(1))):
-                    return "string_form_line_feed"
-            return None
         if m and m.group(3) == "0":
             import json
             keys = json.loads(m.group(1))
